@@ -97,7 +97,7 @@ PROPS['C12'] = dict(
 
 TBM = dict(module='Trace_Bmtree', cfg='Trace_Bmtree.cfg')
 PROPS['C03'] = dict(
-    trace=TBM, builds=['plain', 'debug'], mc=dict(quick=[], thorough=[]), need_kinds=['p2i'],
+    trace=TBM, builds=['plain', 'debug'], mc=dict(quick=[mc('MC_BmIndex', 'MC_BmIndex_q.cfg', expect_min_distinct=25000)], thorough=[mc('MC_BmIndex', 'MC_BmIndex.cfg', expect_min_distinct=200000)]), need_kinds=['p2i'],
     rule='a case is one level mask with a list of nodes (l, v): ALL masks of height <= 7 (thorough <= 10) with ALL their nodes; for heights 1..30 the full tree, the leaf-only tree, '
          'masks with one missing / one present level, sparse and random masks, with the root, the all-zero and all-one path of every length and 60 random nodes; '
          'PathToIndexLoose on every node and PathToIndex on every node of a stored level, in the release build and in the -tags debug build (a contract panic is an abnormal observation), '
@@ -105,7 +105,7 @@ PROPS['C03'] = dict(
     assumptions=TRUST + ['path words are built with the library\'s own NewPath (C10 binds NewPath)'],
 )
 PROPS['C04'] = dict(
-    trace=TBM, mc=dict(quick=[], thorough=[]), need_kinds=['allpaths', 'decode', 'encdec'],
+    trace=TBM, mc=dict(quick=[mc('MC_BmEnum', 'MC_BmEnum_q.cfg', expect_min_distinct=50000)], thorough=[mc('MC_BmEnum', 'MC_BmEnum.cfg', expect_min_distinct=1000000)]), need_kinds=['allpaths', 'decode', 'encdec'],
     rule='allpaths: every mask of height <= 4 (thorough <= 6) x from/to drawn from every path word, word+-1 in either half and extreme words (incl. from > to), '
          'tall trees (height 6..30) with windows of <= 300 full-length values whose lower halves are real masks, masks+-1, non-contiguous or noise; '
          'decode: masks of height <= 10/12 with bitmaps shorter, exact and longer than bitmapSize bits incl. bit 63 of the last word; encdec: PathToIndex-encode a node set then Decode; '
@@ -114,13 +114,13 @@ PROPS['C04'] = dict(
     assumptions=TRUST + ['completeness of Decode is judged by counting, using that PathToIndex is a bijection onto [0, bitmapSize) (C03, MC_BmIndex)'],
 )
 PROPS['C05'] = dict(
-    trace=TBM, mc=dict(quick=[], thorough=[]), need_kinds=['i2p'],
+    trace=TBM, mc=dict(quick=[mc('MC_BmIndex', 'MC_BmIndex_q.cfg', expect_min_distinct=25000)], thorough=[mc('MC_BmIndex', 'MC_BmIndex.cfg', expect_min_distinct=200000)]), need_kinds=['i2p'],
     rule='a case is a height with a batch of indexes: EVERY index of every height <= 10 (thorough <= 13); for heights 5..30 the indexes 0..3, h-1..h+2, 2^k+d, 2^k+h+d, last-2^k+d, middle and last, plus batches of 300 random indexes; '
          'IndexToPath judged against the pre-order descent Bmtree!PathOfIndex and PathToIndex(full, result) = index; distinct = distinct (height, indexes), non-trivial = height >= 1',
     assumptions=TRUST,
 )
 PROPS['C10'] = dict(
-    trace=TBM, mc=dict(quick=[], thorough=[]), need_kinds=['pathw'],
+    trace=TBM, mc=dict(quick=[mc('MC_BmPath', 'MC_BmPath_q.cfg', expect_min_distinct=5000)], thorough=[mc('MC_BmPath', 'MC_BmPath.cfg', expect_min_distinct=20000), mc('MC_BmEnum', 'MC_BmEnum_q.cfg', expect_min_distinct=50000)]), need_kinds=['pathw'],
     rule='a case is a height with a list of nodes (bit sequences) and index pairs: ALL nodes of heights <= 6 (thorough <= 8) in pre-order with all adjacent pairs both ways and 400 random pairs; '
          'all heights 0..32 x all lengths x prefixes {0,1,2^l-1,2^(l-1),random}; random related pairs (prefix, extension, sibling branch) on heights 1..32; '
          'NewPath, PathLen, PathHeight, PathBits, PathMask, PathStr on every node and Go\'s < on the two words of every pair, judged against Bmtree!PathOnes and PreLess; '
@@ -137,28 +137,28 @@ PROPS['C11'] = dict(
 
 TS = dict(module='Trace_Strs', cfg='Trace_Strs.cfg')
 PROPS['C08'] = dict(
-    trace=TS, mc=dict(quick=[], thorough=[]), need_kinds=['bw', 'bwtostr', 'bwfd', 'bwstrs'],
+    trace=TS, mc=dict(quick=[mc('MC_BitWord', 'MC_BitWord_q.cfg', expect_min_distinct=800), mc('MC_BitWord', 'MC_BitWord_fd_q.cfg', expect_min_distinct=30000)], thorough=[mc('MC_BitWord', 'MC_BitWord.cfg', expect_min_distinct=13000), mc('MC_BitWord', 'MC_BitWord_fd.cfg', expect_min_distinct=1000000)]), need_kinds=['bw', 'bwtostr', 'bwfd', 'bwstrs'],
     rule='bw: (string, width) for ALL 1-byte strings x 4 widths, 2-byte strings (quick: 1500 sampled; thorough: all 65,536) and random strings up to 40 bytes: FromStr, Get at every index, ToStr(FromStr) and ToStr of every prefix of the word list; '
          'bwtostr: in-range word lists; bwfd: FirstDiff on pairs with common prefixes of every length and single-bit differences over ~60 windows (from >= end, end beyond either string, end = -1); bwstrs: FromStrs/ToStrs; '
          'judged against Strs!FromStrD/ToStrD/FirstDiffD; distinct = distinct inputs, non-trivial = non-empty string',
     assumptions=TRUST,
 )
 PROPS['C09'] = dict(
-    trace=TS, mc=dict(quick=[], thorough=[]), need_kinds=['bscmp', 'bsupto'],
+    trace=TS, mc=dict(quick=[mc('MC_BitStr', 'MC_BitStr_q.cfg', expect_min_distinct=40000)], thorough=[mc('MC_BitStr', 'MC_BitStr.cfg', expect_min_distinct=1500000)]), need_kinds=['bscmp', 'bsupto'],
     rule='bscmp: groups of 8 related ranges (prefixes of every bit length, one-bit differences, extensions, aligned/unaligned ends, empty ranges, unaligned from) over strings of 0..20 bytes crossing the 8-byte switch, Len of each and Cmp of ALL ordered pairs; '
          'every (from,to) of strings of <= 3 bytes; bsupto: one encoded range with 12 plain strings (empty, the payload, byte prefixes, one byte / much longer, garbage in masked-out bits, one flipped bit): CmpUpto, StrCmpUpto and StrCmpUpto after a call with an empty string; '
          'judged against lexicographic order of the bit strings (Strings!LexCmp); distinct = distinct inputs',
     assumptions=TRUST,
 )
 PROPS['C16'] = dict(
-    trace=TS, mc=dict(quick=[], thorough=[]), need_kinds=['fdb', 'cntp'],
+    trace=TS, mc=dict(quick=[mc('MC_SigBits', 'MC_SigBits_q.cfg', expect_min_distinct=30000)], thorough=[mc('MC_SigBits', 'MC_SigBits.cfg', expect_min_distinct=200000)]), need_kinds=['fdb', 'cntp'],
     rule='key sets of 2-16 keys with a shared prefix of 0..20 bytes (crossing 8 and 16), tails over {00,01,a,b,80,ff} / {a,b,c} / all bytes, single-bit differences in bytes 7,8,9,15,16, key+NULs, key = prefix of successor, empty key; '
          'fdb: FirstDiffBits (sorted and shuffled); cntp: New(keys).CountPrefixes over all sub-ranges (small sets) and 14 random sub-ranges x m in {1,2,3,8,9,17,64}; judged against Strs!FirstDiffBitD / CountPrefixesD; '
          'distinct = distinct inputs, non-trivial = at least 2 keys',
     assumptions=TRUST,
 )
 PROPS['C17'] = dict(
-    trace=TS, mc=dict(quick=[], thorough=[]), need_kinds=['shard'],
+    trace=TS, mc=dict(quick=[mc('MC_SigBits', 'MC_SigBits_q.cfg', expect_min_distinct=30000)], thorough=[mc('MC_SigBits', 'MC_SigBits.cfg', expect_min_distinct=200000)]), need_kinds=['shard'],
     rule='strictly ascending key lists (families of C16, plus all keys differing in the first byte, single key, 100-2000 keys over a 3-letter alphabet) x maxSize in {1,2,3,len-1,len,len+1,...}; '
          'the returned (lengths, boundaries) are judged by the relation Strs!ShardOK (any valid sharding is accepted); distinct = distinct inputs, non-trivial = at least 2 keys',
     assumptions=TRUST,
